@@ -3,5 +3,6 @@ CONSTANTS MaxHist = 2
   CfgIds = {1}
   DeepCfgIds = {1}
   StmtAct = FALSE
+  LibIds <- AllLibIds
 INVARIANTS TypeOK Laws
 PROPERTY Untouched
